@@ -59,6 +59,11 @@ PROPS["C09"] = {
          "race_anchors": ["pkg/secretstore/secret_store_messages.go", "pkg/secretstore/secret_store.go",
                           "pkg/secretstore/device_keystore_wrapper.go", "pkg/secretstore/chain_key.go"],
          "timeout": {"quick": 900, "thorough": 3000}},
+        {"name": "c09-datastore-faults", "pkg": SECRETSTORE, "run": "TestVerifC09Faults", "timeout": {"quick": 900, "thorough": 3000}},
+        {"name": "c09-restart-burst", "pkg": SECRETSTORE, "run": "TestVerifC09Restart", "race": True, "race_decides": True,
+         "race_anchors": ["pkg/secretstore/secret_store_messages.go", "pkg/secretstore/secret_store.go",
+                          "pkg/secretstore/device_keystore_wrapper.go", "pkg/secretstore/chain_key.go"],
+         "timeout": {"quick": 900, "thorough": 3000}},
         {"name": "c09-porcupine", "kind": "script",
          "cmd": ["python3", "lib/porcu.py", "C09", "c09-porcupine", "counter", "c09-history-"]},
     ],
@@ -178,6 +183,7 @@ PROPS["C19"] = {
     "units": [
         {"name": "c19-rpc-robustness", "pkg": ROOT, "run": "TestVerifC19", "timeout": {"quick": 900, "thorough": 3400}},
         {"name": "c19-helpers", "pkg": ROOT, "run": "TestVerifC19Helpers", "timeout": {"quick": 600, "thorough": 1800}},
+        {"name": "c19-rpc-sweep", "pkg": ROOT, "run": "TestVerifC19Sweep", "timeout": {"quick": 1500, "thorough": 3400}},
     ],
 }
 PROPS["C20"] = {
